@@ -44,10 +44,11 @@ Proof.
 Qed.
 Print Assumptions C09_payload_bytes.
 
-(* along ANY history without a calibration pass (forwards, freezes, moves, copies, reloads in any order and
-   number) the outputs stay in the class they were in; once frozen, a model stays frozen *)
+(* along ANY history without a calibration pass or a conversion to another float dtype (forwards, freezes, device
+   moves, copies, reloads in any order and number) the outputs stay in the class they were in; once frozen, a model
+   stays frozen (conversions included) *)
 Theorem C09_histories : forall act ops s,
-  ~ In LCalibrate ops -> Forall (fun fe => snd fe = l_epoch s) (ltrace act s ops).
+  ~ In LCalibrate ops -> ~ In LConvert ops -> Forall (fun fe => snd fe = l_epoch s) (ltrace act s ops).
 Proof. exact history_epoch_only. Qed.
 Print Assumptions C09_histories.
 
